@@ -171,13 +171,14 @@ theorem readLineLoop_measure (k : Nat) (racc : Bytes) (s : RStream) (he : s.eof 
 
 /-! ## `TextFile::readLine(char newline)` -/
 
-/-- `while (1) { char c = read<char>(); if (end() || c == newline) break; s << c; }` — one `fread` of one
-    byte per iteration; at the end of the file the read fails, sets the indicator, and `end()` stops the loop.
-    No CR handling here: the delimiter is the caller's. -/
+/-- `while (1) { char c; if (read(&c, 1) < 1) break; if (c == newline) break; s << c; }` — one `fread` of one
+    byte per iteration; at the end of the file (or when the read fails: repair 95952ce, the loop used to test
+    `feof` only and never ended on a stream that cannot be read) the loop stops.  No CR handling here: the
+    delimiter is the caller's. -/
 def readDelimLoop (delim : UInt8) : Bytes → Bool → Bytes → Bytes × RStream
   | [], _, racc => (racc.reverse, { rest := [], eof := true })
   | c :: t, e, racc =>
-    if e || c == delim then (racc.reverse, { rest := t, eof := e })
+    if c == delim then (racc.reverse, { rest := t, eof := e })
     else readDelimLoop delim t e (c :: racc)
 
 def readLineDelim (delim : UInt8) (s : RStream) : Bytes × RStream := readDelimLoop delim s.rest s.eof []
@@ -343,6 +344,14 @@ def le32 (n : Nat) : Bytes :=
 def hread (h : Handle) (n : Nat) : Bytes × Handle :=
   if h.sm.canRead then
     let r := fread n h.rs
+    (r.1, { h with rs := r.2 })
+  else ([], h)
+
+/-- `TextFile::readLine(char)` through an open object: on a stream that cannot be read (opened for writing) the first
+    `read` fails and the empty string is returned at once -/
+def hreadLineDelim (h : Handle) (delim : UInt8) : Bytes × Handle :=
+  if h.sm.canRead then
+    let r := readLineDelim delim h.rs
     (r.1, { h with rs := r.2 })
   else ([], h)
 
